@@ -12,26 +12,19 @@ Notation Norm := (Norm src).
 Notation Inv := (Inv src).
 Notation NormInv := (NormInv src).
 
-(* what is claimed about one reported token *)
+(* what is claimed about one reported token: a token other than ILLEGAL is reported at the
+   line/column of the offset where it starts; ILLEGAL at the line/column of some offset 0..len *)
 Definition tok_ok (t : token) : Prop :=
-  tbad t = false ->
   (tkind t <> T_ILLEGAL -> tpos t = P (tstart t) /\ 0 <= tstart t <= len) /\
-  (tkind t = T_ILLEGAL -> tover t = false -> exists k, 0 <= k <= len /\ tpos t = P k).
-
-(* the token is a NUMBER and right after its text the source has e/E, an optional sign, CR or LF *)
-Definition cause (t : token) : Prop :=
-  tkind t = T_NUMBER /\ dangling_eol src (tstart t + zlen (tval t)).
+  (tkind t = T_ILLEGAL -> exists k, 0 <= k <= len /\ tpos t = P k).
 
 Definition scan_post (l0 : lexer) (r : token * lexer) : Prop :=
-  Inv (snd r) /\ tbad (fst r) = xl l0 /\ tok_ok (fst r) /\
+  Inv (snd r) /\ tok_ok (fst r) /\
   (is_final (fst r) = false -> NormInv (snd r) /\ offset l0 < offset (snd r)) /\
-  (xl l0 = false -> tkind (fst r) = T_DIV ->
+  (tkind (fst r) = T_DIV ->
      lpos (snd r) = col_add (tpos (fst r)) 1 /\ offset (snd r) = tstart (fst r) + 2) /\
-  (xl l0 = false -> tkind (fst r) = T_DIV_ASSIGN ->
-     lpos (snd r) = col_add (tpos (fst r)) 2 /\ offset (snd r) = tstart (fst r) + 3) /\
-  (xl l0 = true -> xl (snd r) = true) /\
-  (xl (snd r) = true -> xl l0 = true \/ cause (fst r)) /\
-  (tover (fst r) = true -> BS src).
+  (tkind (fst r) = T_DIV_ASSIGN ->
+     lpos (snd r) = col_add (tpos (fst r)) 2 /\ offset (snd r) = tstart (fst r) + 3).
 
 Lemma choice_spec l0 l c one two :
   NormInv l -> Rel l0 l -> c <> 0 ->
@@ -120,64 +113,60 @@ Qed.
 
 (* ---- building the post-condition of scan() --------------------------------------------- *)
 Lemma post_illegal l0 l msg :
-  Inv l -> Rel l0 l -> scan_post l0 (tok_at l l0 T_ILLEGAL msg l).
+  Inv l -> scan_post l0 (tok_at l T_ILLEGAL msg l).
 Proof.
-  intros Hi (Hx & Ho). unfold scan_post, tok_at. cbn [fst snd tbad tkind tpos tstart tover].
-  splits; try assumption; try reflexivity.
-  - unfold tok_ok. cbn [tbad tkind tpos tstart tover]. intros Hb. split.
+  intros Hi. unfold scan_post, tok_at. cbn [fst snd tkind tpos tstart].
+  splits; try assumption.
+  - unfold tok_ok. cbn [tkind tpos tstart]. split.
     + intros Hne; exfalso; apply Hne; reflexivity.
-    + intros _ Hov. apply (Inv_lpos_exists src l Hi); [congruence|assumption].
+    + intros _. apply (Inv_lpos_exists src l Hi).
   - unfold is_final. cbn [tkind]. intros H; vm_compute in H; discriminate H.
-  - intros _ H; vm_compute in H; discriminate H.
-  - intros _ H; vm_compute in H; discriminate H.
-  - congruence.
-  - intros; left; congruence.
-  - apply (Inv_over src l Hi).
+  - intros H; vm_compute in H; discriminate H.
+  - intros H; vm_compute in H; discriminate H.
 Qed.
 
-Lemma tok_at_ok lc l0 kind val l' :
-  NormInv lc -> xl lc = xl l0 -> tok_ok (fst (tok_at lc l0 kind val l')).
+Lemma tok_at_ok lc kind val l' : NormInv lc -> tok_ok (fst (tok_at lc kind val l')).
 Proof.
-  intros Hni Hx. unfold tok_ok, tok_at. cbn [fst tbad tkind tpos tstart tover].
-  intros Hb. destruct (NormInv_norm _ _ Hni ltac:(congruence)) as (_ & Hl & _).
+  intros Hni. unfold tok_ok, tok_at. cbn [fst tkind tpos tstart].
+  destruct (NormInv_norm _ _ Hni) as (_ & Hl & _).
   pose proof (LexerPos.NormInv_bounds _ _ Hni) as Hb'.
   replace (Z.max 0 (offset lc - 1)) with (offset lc - 1) by lia.
   split.
   - intros _. split; [assumption|lia].
-  - intros _ _. exists (offset lc - 1). split; [lia|assumption].
+  - intros _. exists (offset lc - 1). split; [lia|assumption].
 Qed.
 
-Lemma post_eof l0 l :
-  NormInv l -> Rel l0 l -> scan_post l0 (tok_at l l0 T_EOF [] l).
+Lemma post_eof l0 l : NormInv l -> scan_post l0 (tok_at l T_EOF [] l).
 Proof.
-  intros Hn (Hx & Ho). unfold scan_post. splits.
+  intros Hn. unfold scan_post. splits.
   - apply NormInv_Inv; exact Hn.
-  - reflexivity.
   - apply tok_at_ok; assumption.
   - intros H; vm_compute in H; discriminate H.
-  - intros _ H; vm_compute in H; discriminate H.
-  - intros _ H; vm_compute in H; discriminate H.
-  - cbn [snd tok_at]. congruence.
-  - cbn [snd tok_at]. intros; left; congruence.
-  - cbn [fst tok_at tover]. apply (Inv_over src l (NormInv_Inv _ _ Hn)).
+  - intros H; vm_compute in H; discriminate H.
+  - intros H; vm_compute in H; discriminate H.
 Qed.
 
 Lemma post_tok lc l0 l' kind val :
   NormInv lc -> Rel l0 lc -> NormInv l' -> offset lc < offset l' ->
-  kind <> T_DIV -> kind <> T_DIV_ASSIGN -> (xl l0 = true -> xl l' = true) ->
-  (xl l' = true -> xl l0 = true \/ cause (fst (tok_at lc l0 kind val l'))) ->
-  scan_post l0 (tok_at lc l0 kind val l').
+  kind <> T_DIV -> kind <> T_DIV_ASSIGN ->
+  scan_post l0 (tok_at lc kind val l').
 Proof.
-  intros Hn (Hx & Ho) Hn' Ho' Hk1 Hk2 Hmono Hexpl. unfold scan_post. splits.
+  intros Hn Ho Hn' Ho' Hk1 Hk2. unfold Rel in Ho. unfold scan_post. splits.
   - apply NormInv_Inv; exact Hn'.
-  - reflexivity.
   - apply tok_at_ok; assumption.
   - intros _. split; [exact Hn'|cbn [snd tok_at]; lia].
-  - intros _ H. cbn [fst tok_at tkind] in H. contradiction.
-  - intros _ H. cbn [fst tok_at tkind] in H. contradiction.
-  - exact Hmono.
-  - exact Hexpl.
-  - cbn [fst tok_at tover]. apply (Inv_over src l' (NormInv_Inv _ _ Hn')).
+  - intros H. cbn [fst tok_at tkind] in H. contradiction.
+  - intros H. cbn [fst tok_at tkind] in H. contradiction.
+Qed.
+
+(* after a plain byte the next position is one column further *)
+Lemma norm_npos_plain l : NormInv l -> ch l <> 0 -> plain (ch l) -> npos l = col_add (lpos l) 1.
+Proof.
+  intros Hn Hnz Hpl. destruct (NormInv_norm _ _ Hn) as (_ & Hl & Hnp).
+  destruct (W_ch_nonzero src l (NormInv_W _ _ Hn) Hnz) as (_ & Hi).
+  pose proof (pos_of_offset_step _ _ _ Hi) as Hs.
+  replace (offset l - 1 + 1) with (offset l) in Hs by lia.
+  rewrite Hnp, Hs, (adv_plain _ _ Hpl), Hl. reflexivity.
 Qed.
 
 Lemma plain_kind_neq t : plain_kind t = true -> t <> T_EOF /\ t <> T_DIV /\ t <> T_DIV_ASSIGN.
@@ -214,22 +203,22 @@ Proof.
   assert (Hra : Rel l0 (set_had_space false l0)) by exact (Rel_refl l0).
   eapply okr_bind; [apply (skip_ws_spec src fuel l0 _ Hna Hra); exact Hf|].
   intros [l|l] (Hn & Hr); cbn [ws_state] in *.
-  { apply okr_ret. apply post_illegal; [apply NormInv_Inv; assumption|assumption]. }
+  { apply okr_ret. apply post_illegal. apply NormInv_Inv; assumption. }
   (* comment *)
   eapply okr_bind with (Q1 := fun l' => NormInv l' /\ Rel l0 l').
   { destruct (ch l =? 35) eqn:E35.
     - eapply okr_bind; [apply (nextN src l0 l Hn Hr); lia|].
-      intros l1 (Hn1 & Hr1 & Ho1 & _). pose proof Hr1 as (_ & Hle1).
+      intros l1 (Hn1 & Hr1 & Ho1 & _). pose proof Hr1 as Hle1. unfold Rel in Hle1.
       eapply okr_weaken; [apply (skip_while_spec src _ comment_char_nz fuel l0 l1 Hn1 Hr1); lia|].
       intros l2 (? & ? & _). split; assumption.
     - apply okr_ret. split; assumption. }
-  clear l Hn Hr. intros l (Hn & Hr). pose proof Hr as (Hx & Hle).
+  clear l Hn Hr. intros l (Hn & Hr). pose proof Hr as Hle. unfold Rel in Hle.
   destruct (ch l =? 0) eqn:E0.
   { apply okr_ret. apply post_eof; assumption. }
   assert (Hnz : ch l <> 0) by lia.
   pose proof (NormInv_bounds _ Hn) as Hbl.
   eapply okr_bind; [apply (nextN src l0 l Hn Hr Hnz)|].
-  intros l1 (Hn1 & Hr1 & Ho1 & Hl1 & _). pose proof Hr1 as (Hx1 & Hle1).
+  intros l1 (Hn1 & Hr1 & Ho1 & Hl1 & _). pose proof Hr1 as Hle1. unfold Rel in Hle1.
   destruct (is_name_start (ch l)) eqn:Ens.
   { (* names and keywords *)
     eapply okr_bind; [apply (skip_while_spec src _ name_char_nz fuel l0 l1 Hn1 Hr1); lia|].
@@ -237,12 +226,11 @@ Proof.
     destruct (slice_ok src (offset l1 - 2) (offset l2 - 1)) as (name & Es); [lia|lia|].
     rewrite Es. cbn [of_res lbind].
     destruct (keyword_token name =? T_ILLEGAL) eqn:Ek.
-    - apply okr_ret. apply post_tok; try assumption; try lia; try tkneq; try (destruct Hr2; congruence); try (destruct Hr3; congruence);
-      try (intros; left; destruct Hr2; congruence); try (intros; left; destruct Hr3; congruence).
+    - apply okr_ret. apply post_tok; try assumption; try lia; tkneq.
     - apply okr_ret.
       assert (Hk : keyword_token name <> T_ILLEGAL) by lia.
       pose proof (plain_kind_neq _ (keyword_token_plain name Hk)) as (_ & ? & ?).
-      apply post_tok; try assumption; try lia; try (destruct Hr2; congruence). intros; left; destruct Hr2; congruence. }
+      apply post_tok; try assumption; lia. }
   destruct (is_digit (ch l) || (ch l =? 46)) eqn:Enum.
   { (* numbers *)
     eapply okr_bind with (Q1 := fun gl => NormInv (snd gl) /\ Rel l0 (snd gl) /\ offset l1 <= offset (snd gl)).
@@ -256,78 +244,60 @@ Proof.
           - apply okr_ret. splits; try assumption; lia. }
         intros l3 (? & ? & ?). apply okr_ret. cbn [snd]. splits; assumption.
       - apply okr_ret. cbn [snd]. splits; try assumption; lia. }
-    intros (got0, l2) (Hn2 & Hr2 & Ho2). cbn [snd] in *. pose proof Hr2 as (Hx2 & Hle2).
+    intros (got0, l2) (Hn2 & Hr2 & Ho2). cbn [snd] in *. pose proof Hr2 as Hle2. unfold Rel in Hle2.
     eapply okr_bind; [apply (skip_digits_spec src fuel got0 l0 l2 Hn2 Hr2); lia|].
-    intros (got, l3) (Hn3 & Hr3 & Ho3 & _). cbn [fst snd] in *. pose proof Hr3 as (Hx3 & Hle3).
+    intros (got, l3) (Hn3 & Hr3 & Ho3 & _). cbn [fst snd] in *. pose proof Hr3 as Hle3. unfold Rel in Hle3.
     destruct (negb got).
-    { apply okr_ret. apply post_illegal; [apply NormInv_Inv; assumption|assumption]. }
-    eapply okr_bind with (Q1 := fun l4 => NormInv l4 /\ offset l3 <= offset l4 /\ (xl l3 = true -> xl l4 = true) /\
-       (xl l4 = true -> xl l3 = true \/ (offset l4 = offset l3 /\ dangling_eol src (offset l3 - 1)))).
+    { apply okr_ret. apply post_illegal. apply NormInv_Inv; assumption. }
+    eapply okr_bind with (Q1 := fun l4 => NormInv l4 /\ offset l3 <= offset l4).
     { destruct ((ch l3 =? 101) || (ch l3 =? 69)) eqn:Ee.
-      - eapply okr_weaken; [apply (scan_exponent_spec src fuel l3 Hn3); lia|].
-        intros l4 (? & ? & ? & ?). splits; assumption.
-      - apply okr_ret. splits; [assumption|lia|auto|auto]. }
-    intros l4 (Hn4 & Ho4 & Hm4 & He4). pose proof (NormInv_bounds _ Hn4) as Hb4.
+      - apply (scan_exponent_spec src fuel l3 Hn3); lia.
+      - apply okr_ret. split; [assumption|lia]. }
+    intros l4 (Hn4 & Ho4). pose proof (NormInv_bounds _ Hn4) as Hb4.
     destruct (slice_ok src (offset l1 - 2) (offset l4 - 1)) as (v & Es); [lia|lia|].
-    pose proof (slice_len _ _ _ _ Es) as Hvl.
     rewrite Es. cbn [of_res lbind].
-    apply okr_ret. apply post_tok; try assumption; try lia; try tkneq.
-    intros Hx4. destruct (He4 Hx4) as [Hx3t|(Eo & Hd)]; [left; congruence|right].
-    unfold cause. cbn [fst tok_at tkind tstart tval]. split; [reflexivity|].
-    replace (Z.max 0 (offset l - 1) + zlen v) with (offset l3 - 1) by lia. exact Hd. }
+    apply okr_ret. apply post_tok; try assumption; try lia; tkneq. }
   destruct ((ch l =? 34) || (ch l =? 39)) eqn:Estr.
   { (* strings *)
     eapply okr_bind; [apply (parse_string_spec src fuel (ch l) [] l1 l1 (NormInv_Inv _ _ Hn1) (Rel_refl l1)); lia|].
-    intros [msg l2|chars l2] (Hi2 & (Hx12 & Hle12)); cbn [str_state] in *;
-      (assert (Hr2 : Rel l0 l2) by (split; [congruence|lia])).
+    intros [msg l2|chars l2] (Hi2 & Hle12); cbn [str_state] in *; unfold Rel in Hle12.
     { apply okr_ret. apply post_illegal; assumption. }
     destruct (negb (ch l2 =? ch l)) eqn:Eend.
     { apply okr_ret. apply post_illegal; assumption. }
     assert (Hnz2 : ch l2 <> 0) by lia.
-    pose proof (Inv_nonzero_NormInv src l2 Hi2 Hnz2) as Hn2. pose proof Hr2 as (Hx2 & Hle2).
+    pose proof (Inv_nonzero_NormInv src l2 Hi2 Hnz2) as Hn2.
+    assert (Hr2 : Rel l0 l2) by (unfold Rel; lia).
     eapply okr_bind; [apply (nextN src l0 l2 Hn2 Hr2 Hnz2)|].
     intros l3 (Hn3 & Hr3 & Ho3 & _).
-    apply okr_ret. apply post_tok; try assumption; try lia; try tkneq; try (destruct Hr2; congruence); try (destruct Hr3; congruence);
-      try (intros; left; destruct Hr2; congruence); try (intros; left; destruct Hr3; congruence). }
+    apply okr_ret. apply post_tok; try assumption; try lia; tkneq. }
   destruct (ch l =? 38) eqn:Eamp.
   { (* '&' *)
     eapply okr_bind; [apply (choice_spec l0 l1 38 T_ILLEGAL T_AND Hn1 Hr1); lia|].
     intros (t, l2) (Hn2 & Hr2 & Ho2 & Hc). cbn [fst snd] in *.
     destruct Hc as [(-> & ->)|(-> & _)].
     - replace (T_ILLEGAL =? T_ILLEGAL) with true by reflexivity.
-      apply okr_ret. apply post_illegal; [apply NormInv_Inv; assumption|assumption].
+      apply okr_ret. apply post_illegal. apply NormInv_Inv; assumption.
     - replace (T_AND =? T_ILLEGAL) with false by reflexivity.
-      apply okr_ret. apply post_tok; try assumption; try lia; try tkneq; try (destruct Hr2; congruence); try (destruct Hr3; congruence);
-      try (intros; left; destruct Hr2; congruence); try (intros; left; destruct Hr3; congruence). }
+      apply okr_ret. apply post_tok; try assumption; try lia; tkneq. }
   (* all other characters *)
   eapply okr_bind; [apply (scan_symbol_spec (ch l) l0 l1 Hn1 Hr1)|].
   intros ((t, v), l2) (Hn2 & Hr2 & Ho2 & Hne & Hd1 & Hd2).
   apply okr_ret. unfold scan_post. cbn [fst snd tok_at tkind tpos tstart].
-  assert (HN : xl l0 = false -> lpos l = P (offset l - 1) /\ npos l = adv (P (offset l - 1)) (ch l)).
-  { intros Hx0. destruct (NormInv_norm _ _ Hn ltac:(congruence)) as (_ & ? & ?). split; assumption. }
   splits.
   - apply NormInv_Inv; exact Hn2.
-  - reflexivity.
-  - apply (tok_at_ok l l0 t v l2); assumption.
+  - apply (tok_at_ok l t v l2); assumption.
   - intros _. split; [exact Hn2|lia].
   - replace (Z.max 0 (offset l - 1)) with (offset l - 1) by lia.
-    intros Hx0 Ht. specialize (Hd2 (Hd1 (or_introl Ht))).
+    intros Ht. specialize (Hd2 (Hd1 (or_introl Ht))).
     destruct Hd2 as [(_ & ->)|(Ht' & _)]; [|rewrite Ht in Ht'; vm_compute in Ht'; discriminate Ht'].
-    destruct (HN Hx0) as (HP & HNP).
-    rewrite Hl1, HNP, HP. rewrite adv_plain by (rewrite (Hd1 (or_introl Ht)); unfold plain; lia).
+    rewrite Hl1, (norm_npos_plain l Hn Hnz) by (rewrite (Hd1 (or_introl Ht)); unfold plain; lia).
     split; [reflexivity|lia].
   - replace (Z.max 0 (offset l - 1)) with (offset l - 1) by lia.
-    intros Hx0 Ht. specialize (Hd2 (Hd1 (or_intror Ht))).
+    intros Ht. specialize (Hd2 (Hd1 (or_intror Ht))).
     destruct Hd2 as [(Ht' & _)|(_ & Hc61 & Ho & Hl2)]; [rewrite Ht in Ht'; vm_compute in Ht'; discriminate Ht'|].
-    destruct (HN Hx0) as (HP & HNP).
-    destruct (NormInv_norm _ _ Hn1 ltac:(congruence)) as (_ & HP1 & HNP1).
-    rewrite Hl2, HNP1, <- HP1, Hl1, HNP, HP.
-    rewrite (adv_plain _ (ch l1)) by (rewrite Hc61; unfold plain; lia).
-    rewrite adv_plain by (rewrite (Hd1 (or_intror Ht)); unfold plain; lia).
+    rewrite Hl2, (norm_npos_plain l1 Hn1) by (try (unfold plain); lia).
+    rewrite Hl1, (norm_npos_plain l Hn Hnz) by (rewrite (Hd1 (or_intror Ht)); unfold plain; lia).
     rewrite col_add_add. split; [reflexivity|lia].
-  - destruct Hr2; congruence.
-  - intros; left; destruct Hr2; congruence.
-  - apply (Inv_over src l2 (NormInv_Inv _ _ Hn2)).
 Qed.
 
 (* ---- Scan(): scan() + lastTok ------------------------------------------------------------ *)
@@ -344,13 +314,11 @@ Qed.
 (* the lexer state right after a DIV (back = 1) or DIV_ASSIGN (back = 2) token that started
    at offset s *)
 Definition regex_pre (l0 : lexer) (back : Z) : Prop :=
-  xl l0 = false -> exists s, 0 <= s /\ lpos l0 = col_add (P s) back /\ offset l0 = s + 1 + back.
+  exists s, 0 <= s /\ lpos l0 = col_add (P s) back /\ offset l0 = s + 1 + back.
 
 Definition regex_post (l0 : lexer) (r : token * lexer) : Prop :=
-  Inv (snd r) /\ tbad (fst r) = xl l0 /\ tok_ok (fst r) /\
-  (is_final (fst r) = false -> NormInv (snd r) /\ offset l0 < offset (snd r)) /\
-  xl (snd r) = xl l0 /\
-  (tover (fst r) = true -> BS src).
+  Inv (snd r) /\ tok_ok (fst r) /\
+  (is_final (fst r) = false -> NormInv (snd r) /\ offset l0 < offset (snd r)).
 
 Lemma scan_regex_spec fuel l0 :
   NormInv l0 ->
@@ -365,27 +333,23 @@ Proof.
   destruct Hback as (back & Hb12 & Hpre & ->). cbn [lbind].
   pose proof (NormInv_bounds _ Hn) as Hb0.
   eapply okr_bind; [apply (regex_loop_spec src fuel _ l0 l0 (NormInv_Inv _ _ Hn) (Rel_refl l0)); exact Hf|].
-  intros [msg l|chars l] (Hi & Hr & Hc); cbn [rx_state] in *.
-  - apply okr_ret. destruct (post_illegal l0 l msg Hi Hr) as (H1 & H2 & H3 & H4 & _).
-    unfold regex_post. splits; try assumption; [cbn [snd tok_at]; destruct Hr; assumption|].
-    cbn [fst tok_at tover]. apply (Inv_over src l Hi).
+  intros [msg l|chars l] (Hi & Hr & Hc); cbn [rx_state] in *; unfold Rel in Hr.
+  - apply okr_ret. destruct (post_illegal l0 l msg Hi) as (H1 & H2 & H3 & _).
+    unfold regex_post. splits; assumption.
   - assert (Hnz : ch l <> 0) by lia.
-    pose proof (Inv_nonzero_NormInv src l Hi Hnz) as Hnl. pose proof Hr as (Hx & Hle).
+    pose proof (Inv_nonzero_NormInv src l Hi Hnz) as Hnl.
     eapply okr_bind; [apply (nextN src l0 l Hnl Hr Hnz)|].
     intros l' (Hn' & Hr' & Ho' & _). apply okr_ret.
-    unfold regex_post. cbn [fst snd tbad tkind]. splits.
+    unfold regex_post. cbn [fst snd tkind]. splits.
     + apply NormInv_Inv; exact Hn'.
-    + reflexivity.
-    + unfold tok_ok. cbn [tbad tkind tpos tstart tover]. intros Hb.
-      destruct (Hpre Hb) as (s & Hs0 & Hl & Ho).
+    + unfold tok_ok. cbn [tkind tpos tstart].
+      destruct Hpre as (s & Hs0 & Hl & Ho).
       assert (Epos : col_add (lpos l0) (- back) = P s).
       { rewrite Hl, col_add_add. replace (back + - back) with 0 by lia. apply col_add_0. }
       split.
       * intros _. rewrite Epos. replace (offset l0 - 1 - back) with s by lia. split; [reflexivity|lia].
       * intros H; vm_compute in H; discriminate H.
     + intros _. split; [exact Hn'|lia].
-    + destruct Hr'; assumption.
-    + cbn [tover]. apply (Inv_over src l' (NormInv_Inv _ _ Hn')).
 Qed.
 
 Lemma ScanRegex_spec fuel l0 :
@@ -404,22 +368,6 @@ Definition all_ok (os : list obs) : Prop := Forall (fun o => tok_ok (otok o)) os
 Definition ends_final (os : list obs) : Prop :=
   exists pre o, os = pre ++ [o] /\ is_final (otok o) = true /\
                 Forall (fun o' => is_final (otok o') = false) pre.
-Definition over_ok (os : list obs) : Prop := Forall (fun o => tover (otok o) = true -> BS src) os.
-Definition first_bad (os : list obs) (v : bool) : Prop :=
-  match os with o :: _ => tbad (otok o) = v | [] => False end.
-
-(* every token flagged bad comes after a token that is a cause (S: the flag was already set) *)
-Fixpoint explained (S : Prop) (os : list obs) : Prop :=
-  match os with
-  | [] => True
-  | o :: rest => (tbad (otok o) = true -> S) /\ explained (S \/ cause (otok o)) rest
-  end.
-
-Lemma explained_weaken os : forall (A B : Prop), (A -> B) -> explained A os -> explained B os.
-Proof.
-  induction os as [|o rest IH]; intros A B HAB; cbn [explained]; [auto|].
-  intros (H1 & H2). split; [auto|]. apply (IH (A \/ cause (otok o))); [tauto|exact H2].
-Qed.
 
 Lemma lex_fuel_enough l : NormInv l -> len + 2 - offset l <= Z.of_nat (lex_fuel src).
 Proof.
@@ -428,71 +376,52 @@ Qed.
 
 Lemma scan_loop_spec :
   forall fuel ds l, NormInv l -> len + 2 - offset l <= Z.of_nat fuel ->
-  okr (fun os => all_ok os /\ ends_final os /\ first_bad os (xl l) /\ explained (xl l = true) os /\ over_ok os)
-      (scan_loop src (lex_fuel src) fuel ds l).
+  okr (fun os => all_ok os /\ ends_final os) (scan_loop src (lex_fuel src) fuel ds l).
 Proof.
   induction fuel as [|f IH]; intros ds l Hn Hf.
   - exfalso. pose proof (NormInv_bounds _ Hn). lia.
   - cbn [scan_loop].
     eapply okr_bind; [apply (Scan_spec _ l Hn (lex_fuel_enough l Hn))|].
-    intros (t, l1) ((Hi1 & Hbad & Hok & Hnf & Hdiv & Hdiva & Hmono & Hexpl & Hov) & Hlast). cbn [fst snd] in *.
-    assert (Hhead : tbad t = true -> xl l = true) by (intros; congruence).
+    intros (t, l1) ((Hi1 & Hok & Hnf & Hdiv & Hdiva) & Hlast). cbn [fst snd] in *.
     destruct (is_final t) eqn:Efin.
-    { apply okr_ret. splits.
+    { apply okr_ret. split.
       - constructor; [exact Hok|constructor].
-      - exists [], (observe t l1). splits; [reflexivity|exact Efin|constructor].
-      - exact Hbad.
-      - cbn [explained observe otok]. split; [exact Hhead|exact I].
-      - constructor; [exact Hov|constructor]. }
+      - exists [], (observe t l1). splits; [reflexivity|exact Efin|constructor]. }
     destruct (Hnf eq_refl) as (Hn1 & Ho1).
     set (want := match ds with d :: _ => is_div t && d | [] => false end).
     destruct want eqn:Ewant.
     + (* the client asks for a regex *)
       assert (Hd : is_div t = true) by (subst want; destruct ds; [discriminate|]; lia).
       assert (Hpre : (lastTok l1 = T_DIV /\ regex_pre l1 1) \/ (lastTok l1 = T_DIV_ASSIGN /\ regex_pre l1 2)).
-      { assert (Hx : xl l1 = false -> xl l = false) by (destruct (xl l); [intros H; rewrite (Hmono eq_refl) in H; discriminate|reflexivity]).
-        assert (Hstart : xl l1 = false -> tkind t <> T_ILLEGAL -> tpos t = P (tstart t) /\ 0 <= tstart t).
-        { intros H1 Hk. destruct (Hok ltac:(rewrite Hbad; auto)) as (Hp & _). destruct (Hp Hk) as (? & ? & _). split; assumption. }
+      { assert (Hstart : tkind t <> T_ILLEGAL -> tpos t = P (tstart t) /\ 0 <= tstart t).
+        { intros Hk. destruct Hok as (Hp & _). destruct (Hp Hk) as (? & ? & _). split; assumption. }
         unfold is_div in Hd. destruct (tkind t =? T_DIV) eqn:Ed.
         - left. assert (Ek : tkind t = T_DIV) by lia. split; [congruence|].
-          intros H1. destruct (Hdiv (Hx H1) Ek) as (Hl & Ho).
-          destruct (Hstart H1) as (Hp & Hs); [rewrite Ek; tkneq|].
+          destruct (Hdiv Ek) as (Hl & Ho).
+          destruct Hstart as (Hp & Hs); [rewrite Ek; tkneq|].
           exists (tstart t). splits; [assumption|congruence|lia].
         - right. assert (Ek : tkind t = T_DIV_ASSIGN) by lia. split; [congruence|].
-          intros H1. destruct (Hdiva (Hx H1) Ek) as (Hl & Ho).
-          destruct (Hstart H1) as (Hp & Hs); [rewrite Ek; tkneq|].
+          destruct (Hdiva Ek) as (Hl & Ho).
+          destruct Hstart as (Hp & Hs); [rewrite Ek; tkneq|].
           exists (tstart t). splits; [assumption|congruence|lia]. }
       eapply okr_bind; [apply (ScanRegex_spec _ l1 Hn1 Hpre (lex_fuel_enough l1 Hn1))|].
-      intros (r, l2) (Hi2 & Hbad2 & Hok2 & Hnf2 & Hx2 & Hov2). cbn [fst snd] in *.
-      assert (Hhead2 : tbad r = true -> (xl l = true \/ cause t)) by (intros; apply Hexpl; congruence).
+      intros (r, l2) (Hi2 & Hok2 & Hnf2). cbn [fst snd] in *.
       destruct (is_final r) eqn:Efin2.
-      { apply okr_ret. splits.
+      { apply okr_ret. split.
         - constructor; [exact Hok|constructor; [exact Hok2|constructor]].
         - exists [observe t l1], (observe r l2). splits; [reflexivity|exact Efin2|].
-          constructor; [exact Efin|constructor].
-        - exact Hbad.
-        - cbn [explained observe otok]. splits; [exact Hhead|exact Hhead2|exact I].
-        - constructor; [exact Hov|constructor; [exact Hov2|constructor]]. }
+          constructor; [exact Efin|constructor]. }
       destruct (Hnf2 eq_refl) as (Hn2 & Ho2).
       eapply okr_bind; [apply (IH _ l2 Hn2); lia|].
-      intros rest (Hall & (pre & o & -> & Hfo & Hpre') & _ & Hex & Hovr). apply okr_ret. splits.
+      intros rest (Hall & (pre & o & -> & Hfo & Hpre')). apply okr_ret. split.
       * constructor; [exact Hok|constructor; [exact Hok2|exact Hall]].
       * exists (observe t l1 :: observe r l2 :: pre), o. splits; [reflexivity|exact Hfo|].
         constructor; [exact Efin|constructor; [exact Efin2|exact Hpre']].
-      * exact Hbad.
-      * cbn [explained observe otok app]. splits; [exact Hhead|exact Hhead2|].
-        apply (explained_weaken _ (xl l2 = true)); [|exact Hex].
-        intros Hx2t. left. apply Hexpl. congruence.
-      * constructor; [exact Hov|constructor; [exact Hov2|exact Hovr]].
     + eapply okr_bind; [apply (IH _ l1 Hn1); lia|].
-      intros rest (Hall & (pre & o & -> & Hfo & Hpre') & _ & Hex & Hovr). apply okr_ret. splits.
+      intros rest (Hall & (pre & o & -> & Hfo & Hpre')). apply okr_ret. split.
       * constructor; [exact Hok|exact Hall].
       * exists (observe t l1 :: pre), o. splits; [reflexivity|exact Hfo|].
         constructor; [exact Efin|exact Hpre'].
-      * exact Hbad.
-      * cbn [explained observe otok app]. split; [exact Hhead|].
-        apply (explained_weaken _ (xl l1 = true)); [exact Hexpl|exact Hex].
-      * constructor; [exact Hov|exact Hovr].
 Qed.
 
 End Tokens.
